@@ -429,8 +429,17 @@ def matmul(I, a, b):
                 acc = binop(I, "+", acc, binop(I, "*", a.get((i, l)), b.get((l,))))
             out.append(acc)
         return Tensor((n,), out)
+    if a.ndim == 1 and b.ndim == 1:
+        if a.shape != b.shape:
+            raise PyExc("ValueError", ("matmul shape mismatch",))
+        acc = 0
+        for l in range(a.shape[0]):
+            acc = binop(I, "+", acc, binop(I, "*", a.get((l,)), b.get((l,))))
+        return acc
     if a.ndim == 1 and b.ndim == 2:
         k, m = b.shape
+        if k != a.shape[0]:
+            raise PyExc("ValueError", ("matmul shape mismatch",))
         out = []
         for j in range(m):
             acc = 0
@@ -695,7 +704,7 @@ def contains(I, container, item):
         f = container.cls.lookup("__contains__")
         if f is not None:
             return I.call(I.bind(f[1], container, container.cls), [item], {})
-        f = container.cls.lookup("__iter__")
+        f = container.cls.lookup("__iter__") or container.cls.lookup("__getitem__")
         if f is not None:
             return contains(I, list(iterate(I, container)), item)
     raise PyExc("TypeError", (f"argument of type '{type(container).__name__}' is not iterable",))
@@ -782,9 +791,21 @@ def iterate(I, it):
             return iterate(I, I.call(I.bind(f[1], it, it.cls), [], {}))
         f = it.cls.lookup("__getitem__")
         if f is not None:
-            n = length(I, it)
-            if isinstance(n, int):
-                return iter([I.call(I.bind(f[1], it, it.cls), [i], {}) for i in range(n)])
+            # the legacy sequence protocol: __getitem__(0), (1), ... until IndexError (no __len__ involved)
+            def legacy():
+                i = 0
+                while True:
+                    try:
+                        v = I.call(I.bind(f[1], it, it.cls), [i], {})
+                    except PyExc as e:
+                        if e.cls_name == "IndexError":
+                            return
+                        raise
+                    yield v
+                    i += 1
+                    if i > 256:
+                        raise Unsupported("iteration through __getitem__ beyond 256 items")
+            return legacy()
     if hasattr(it, "__next__"):
         return it
     raise PyExc("TypeError", (f"'{type(it).__name__}' object is not iterable",))
@@ -929,6 +950,24 @@ def store_cast(t: Tensor, v):
 
 
 def tensor_setitem(I, t: Tensor, key, value):
+    if isinstance(key, Tensor) and key.dtype == "bool" and key.ndim >= 2:
+        # a[mask] = v with a multi-dimensional boolean mask: the selected entries in row-major order
+        if any(isinstance(b_, Sym) for b_ in key.data):
+            raise Unsupported("symbolic multi-dimensional boolean mask on a fixed tensor")
+        if key.shape != t.shape[:key.ndim]:
+            raise PyExc("IndexError", ("boolean index did not match indexed array",))
+        rest = t.shape[key.ndim:]
+        hits = [idx for idx in iter_idx(key.shape) if key.get(idx)]
+        tv = value if isinstance(value, Tensor) else (Tensor.fromlist(value) if isinstance(value, list) else Tensor((), [value]))
+        if tv.is_view():
+            tv = tv.copy()
+        out_shape = (len(hits),) + tuple(rest)
+        if broadcast_shapes(out_shape, tv.shape) != out_shape:
+            raise PyExc("ValueError", ("NumPy boolean array indexing assignment cannot assign the input values to the selected entries",))
+        for j, h in enumerate(hits):
+            for tail in (iter_idx(rest) if rest else [()]):
+                t.set(tuple(h) + tuple(tail), store_cast(t, broadcast_get(tv, out_shape, (j,) + tuple(tail))))
+        return
     if isinstance(key, tuple):
         key = tuple(_mask_to_indices(k) for k in key)
     else:
@@ -1127,7 +1166,14 @@ def builtin_getattr(I, o, name):
         if name == "copy":
             return Builtin("list.copy", lambda I_, a, k: list(l))
         if name == "pop":
-            return Builtin("list.pop", lambda I_, a, k: l.pop(*a))
+            def pop(I_, a, k):
+                if a and (isinstance(a[0], bool) or not isinstance(a[0], int)):
+                    raise Unsupported("list.pop with a non-integer index")
+                try:
+                    return l.pop(*a)
+                except IndexError as e:
+                    raise PyExc("IndexError", tuple(e.args)) from None
+            return Builtin("list.pop", pop)
         if name == "reverse":
             return Builtin("list.reverse", lambda I_, a, k: l.reverse())
         if name == "sort":
@@ -1625,6 +1671,18 @@ def make_builtins(I):
     @reg("iter")
     def _iter(I, a, k):
         v = a[0]
+        if len(a) == 2:
+            # iter(callable, sentinel): call until the result equals the sentinel
+            sentinel = a[1]
+
+            def calls():
+                for _ in range(256):
+                    r = I.call(v, [], {})
+                    if r is sentinel or truth(I, compare(I, "Eq", r, sentinel)):
+                        return
+                    yield r
+                raise Unsupported("iter(callable, sentinel) beyond 256 calls")
+            return IterVal(calls())
         if isinstance(v, GeneratorVal):
             return v
         return IterVal(iterate(I, v))
